@@ -361,14 +361,21 @@ COMPONENTS = {'scenario': scenario_case}
 
 # --------------------------------------------------------------- strategies
 
+# version names are free text chosen by the server (MOTD-style
+# advertising is common): nothing in them may be interpreted
+ODD_NAMES = ['100% Vanilla', '50%% off ranks!', 'Survival %s', '%d',
+             '%(name)s', '{0} {} {name}', '', ' ', 'a\nb', '\u00a7cRed',
+             '\U0001f600 1.18', "it's \"quoted\"", '\\x']
+
+
 def reply_strategy(sup, known):
     unknown = st.sampled_from([-1, -2 ** 31, 2 ** 31, 10 ** 6, 99999,
                                PRE | 1000, 758, 1000])
     unsupported = st.sampled_from([p for p in known if p not in sup] or [0])
     proto = st.one_of(st.sampled_from(sup), st.sampled_from(sup),
                       unsupported, unknown)
-    name = st.one_of(st.none(), st.sampled_from(['1.8', 'Paper 1.16.5',
-                                                 'x', 'BungeeCord 1.8.x']))
+    name = st.one_of(st.none(), st.sampled_from(
+        ['1.8', 'Paper 1.16.5', 'x', 'BungeeCord 1.8.x'] + ODD_NAMES))
 
     def with_proto(t):
         p, nm = t
@@ -504,6 +511,15 @@ def t_every_other_number(ctx):
             scenario_case(ctx, {'allowed': [(sup[0], 'num'), (sup[-1], 0)],
                                 'default': (sup[0], 'num'), 'reply': reply,
                                 'entry': 'connect', 'username': 'u'})
+    # free-text version names in a mismatch (unsupported and not-allowed)
+    for nm in ODD_NAMES:
+        for p, al in ((99999, None), (sup[3], [(sup[0], 'num'), (sup[-1], 0)])):
+            reply = {'kind': 'proto', 'protocol': p, 'name': nm,
+                     'json': json.dumps({'version': {'protocol': p,
+                                                     'name': nm}})}
+            scenario_case(ctx, {'allowed': al, 'default': None,
+                                'reply': reply, 'entry': 'connect',
+                                'username': 'u'})
     # falsy-but-present values of the other keys must not count as absent
     for js, kind in (('{"version": {"protocol": 0, "name": ""}}', 'proto'),):
         scenario_case(ctx, {'allowed': None, 'default': None,
